@@ -45,6 +45,14 @@ def m(pat, s, b):
     return pat == s
 
 
+def contains_name(s, name):
+    if s == name:
+        return True
+    if isinstance(s, tuple):
+        return any(contains_name(x, name) for x in s)
+    return False
+
+
 def unwrap(s):
     """Drop value-preserving wrappers: construction of a matrix from one expression."""
     while isinstance(s, tuple) and len(s) == 2 and isinstance(s[0], str) and (s[0].startswith('new:Eigen::Matrix<') or (s[0].startswith('new:std::') and 'iterator' in s[0])):
@@ -109,7 +117,12 @@ def check_seeds_and_stats(fx, R):
                 R.violated('B7', inst, '%s is updated with %s(...) - the running %simum must use %s' % (field, op, want, want), fx.rel(f['loc']), 'E-SIB')
                 continue
             if field not in seeds:
-                R.undecided('B1', inst, 'seed of %s is not a setConstant(...) before the loop' % field)
+                assigned = [x for x in ex if isinstance(x, tuple) and x[0] == '=' and x[1] == field and not contains_name(x[2], field)]
+                if assigned:
+                    R.undecided('B1', inst, 'seed of %s is %s, not a setConstant(...) the front end folds' % (field, assigned[0][2]))
+                else:
+                    R.violated('B1', inst + ':not-reseeded', 'compute() updates the running %simum %s with every point but never re-seeds it: the accumulator is a member, so a second compute() on the '
+                               'same object reports the hull of every set seen so far, not the extrema of its argument%s' % (want, field, tag), fx.rel(f['loc']), 'E-STATE')
                 continue
             seed = seeds[field]
             cv = const_value(seed)
@@ -271,28 +284,54 @@ def check_obb(fx, R):
         R.used(t)
         dim = int(f['cls'].rstrip('>').split(',')[-1])
         loops = [x for x in walk(t['body']) if x.get('k') == 'For']
-        ok, why = False, 'no single loop over the columns'
-        if len(loops) == 1:
-            L = loops[0]
-            init = L.get('init')
-            v = init['vars'][0] if init and init['k'] == 'Decl' and len(init['vars']) == 1 else None
-            bound = const_value(strip_casts(L['c'])['r']) if strip_casts(L['c']).get('k') == 'Bin' else None
-            cond = sx(L['c'])
-            full = v is not None and const_value(v.get('init')) == 0 and isinstance(cond, tuple) and cond[0] == '<' and cond[1] == v['name'] and bound == dim and sx(L['inc']) in (('u++', v['name']),)
-            body = [deep_unwrap(sx(x['e'])) for x in walk(L['b']) if x.get('k') == 'Expr']
-            n = v['name'] if v else '?'
-            term = ('.abs', ('*', ('.col', 'this.rotation_', n), ('()', H, n)))
-            term2 = ('.abs', ('*', ('()', H, n), ('.col', 'this.rotation_', n)))
-            acc_ok = len(body) == 1 and body[0][0] == '+=' and body[0][2] in (term, term2)
-            accname = body[0][1] if body and isinstance(body[0], tuple) else None
-            decl = [vv for s_ in walk(t['body']) if s_.get('k') == 'Decl' for vv in s_['vars'] if vv['name'] == accname]
-            zero = bool(decl) and 'Zero' in str(sx(decl[0].get('init')))
+        inst = '%s::toAxisAlignedBoundingBox' % cname
+        if not loops:
+            # vectorised idiom:  |R| * h   (row i = sum_n |R(i,n)| h(n))
             ret = returns(t)
-            ret_ok = len(ret) == 1 and isinstance(ret[0], tuple) and ret[0][1:] == (C, accname)
-            ok = full and acc_ok and zero and ret_ok
-            why = 'loop full range over %d columns: %s; term |R.col(n)*h(n)|: %s; accumulator starts at zero: %s; result (centre, extents): %s' % (dim, full, acc_ok, zero, ret_ok)
-        R.check(ok, 'B6', '%s::toAxisAlignedBoundingBox' % cname, 'enclosing half extent is not the sum over all %d columns of |R.col(n)*h(n)| about the same centre (%s)' % (dim, why),
-                'half extent = sum_n |R.col(n) h(n)|, same centre', fx.rel(t['loc']), 'E-SIB')
+            decls = {v['name']: deep_unwrap(sx(v['init'])) for s_ in walk(t['body']) if s_.get('k') == 'Decl' for v in s_['vars'] if v.get('init') is not None}
+            ext = ret[0][2] if len(ret) == 1 and isinstance(ret[0], tuple) and len(ret[0]) == 3 else None
+            if isinstance(ext, str) and ext in decls:
+                ext = decls[ext]
+            good = [('*', (a, 'this.rotation_'), H) for a in ('.cwiseAbs', '.abs')]
+            bad = [('*', (a, ('.transpose', 'this.rotation_')), H) for a in ('.cwiseAbs', '.abs')] + [('*', ('.transpose', (a, 'this.rotation_')), H) for a in ('.cwiseAbs', '.abs')]
+            if ext in good and ret[0][1] == C:
+                R.holds('B6', inst, 'half extent = |R| * h, same centre', fx.rel(t['loc']), 'E-SIB')
+            elif ext in bad:
+                R.violated('B6', inst, 'enclosing half extent is |R|^T * h (%s): component i must be sum_n |R(i,n)| h(n), i.e. |R| * h; the transposed form does not contain the box for rotations '
+                           'about more than one axis' % (ext,), fx.rel(t['loc']), 'E-SIB')
+            else:
+                R.undecided('B6', inst, 'enclosing-extent idiom not recognised: %s' % (ret,))
+            continue
+        if len(loops) != 1:
+            R.undecided('B6', inst, '%d loops in toAxisAlignedBoundingBox' % len(loops))
+            continue
+        L = loops[0]
+        init = L.get('init')
+        v = init['vars'][0] if init and init['k'] == 'Decl' and len(init['vars']) == 1 else None
+        bound = const_value(strip_casts(L['c'])['r']) if strip_casts(L['c']).get('k') == 'Bin' else None
+        cond = sx(L['c'])
+        canon = v is not None and const_value(v.get('init')) == 0 and isinstance(cond, tuple) and cond[0] == '<' and cond[1] == v['name'] and sx(L['inc']) in (('u++', v['name']),) and bound is not None
+        body = [deep_unwrap(sx(x['e'])) for x in walk(L['b']) if x.get('k') == 'Expr']
+        n = v['name'] if v else '?'
+        term = ('.abs', ('*', ('.col', 'this.rotation_', n), ('()', H, n)))
+        term2 = ('.abs', ('*', ('()', H, n), ('.col', 'this.rotation_', n)))
+        rowterm = ('.abs', ('*', ('.row', 'this.rotation_', n), ('()', H, n)))
+        if not canon or len(body) != 1 or not (isinstance(body[0], tuple) and body[0][0] == '+='):
+            R.undecided('B6', inst, 'column loop idiom not recognised: cond %s body %s' % (cond, body))
+            continue
+        accname = body[0][1]
+        decl = [vv for s_ in walk(t['body']) if s_.get('k') == 'Decl' for vv in s_['vars'] if vv['name'] == accname]
+        zero = bool(decl) and 'Zero' in str(sx(decl[0].get('init')))
+        ret = returns(t)
+        ret_ok = len(ret) == 1 and isinstance(ret[0], tuple) and ret[0][1:] == (C, accname)
+        if body[0][2] in (term, term2):
+            ok = bound == dim and zero and ret_ok
+            R.check(ok, 'B6', inst, 'half extent sums |R.col(n)*h(n)| over n < %s of %d columns; accumulator starts at zero: %s; result (centre, extents): %s' % (bound, dim, zero, ret_ok),
+                    'half extent = sum_n |R.col(n) h(n)| over all %d columns, same centre' % dim, fx.rel(t['loc']), 'E-SIB')
+        elif isinstance(body[0][2], tuple) and contains_name(body[0][2], '.row'):
+            R.violated('B6', inst, 'enclosing half extent accumulates rows of the rotation (%s): it must accumulate |R.col(n)| * h(n)' % (body[0][2],), fx.rel(t['loc']), 'E-SIB')
+        else:
+            R.undecided('B6', inst, 'accumulated term not recognised: %s' % (body[0][2],))
 
 
 def check_interval(fx, R):
